@@ -6,7 +6,9 @@
 extern void vh_tr(int in, bool invoke, const char* name, const void* ptr, void* state);
 #define RLBOX_TRANSITION_ACTION_IN(kind, name, ptr, state) ::vh_tr(1, (kind) == ::rlbox::rlbox_transition::INVOKE, name, ptr, state)
 #define RLBOX_TRANSITION_ACTION_OUT(kind, name, ptr, state) ::vh_tr(0, (kind) == ::rlbox::rlbox_transition::INVOKE, name, ptr, state)
+#ifndef CALLS_NO_TIMES   // a build with the two hooks only (command `treenh`): hooks must not depend on the timing option
 #define RLBOX_MEASURE_TRANSITION_TIMES
+#endif
 #if defined(CALLS_DYLIB)
 // the bundled dylib backend: the guest functions live in a shared object (harness/guest_calls.cpp) that the backend
 // dlopens; host ABI, real per-slot trampolines; CALLS_EMBEDDER_TLS as for the no-op backend
@@ -171,7 +173,7 @@ int main()
 #endif
   g_sb[0].set_transition_state(&g_state[0][0]); g_sb[1].set_transition_state(&g_state[1][0]);
   main_loop([&](const std::vector<std::string>& t) -> std::string {
-    if (t[0] != "tree" && t[0] != "treen") return "badop";
+    if (t[0] != "tree" && t[0] != "treen" && t[0] != "treenh") return "badop";
     g_tok.assign(t.begin() + 1, t.end()); g_pos = 0; g_log.clear(); g_nep = 0; g_cur_sb = 9;
     using Owner = rlbox::sandbox_callback<long (*)(long), SbxA>;
     std::vector<Owner> owners(6);
@@ -199,12 +201,16 @@ int main()
     });
     if (r != "ok") logev(r == "abort" ? "x" : r);
     std::string tim;
+#ifdef RLBOX_MEASURE_TRANSITION_TIMES
     for (int i = 0; i < 2; i++) {
       tim += " T" + std::to_string(i) + "=";
       for (auto& rec : g_sb[i].process_and_get_transition_times())
         tim += rec.invoke == rlbox::rlbox_transition::INVOKE ? (std::string(rec.name ? rec.name : "?") == "gl_node" ? "I" : "?") : (rec.name == nullptr ? "C" : "?");
       g_sb[i].clear_transition_times();
     }
+#else
+    tim = " T0=none T1=none";
+#endif
     for (auto& o : owners) { try { o.unregister(); } catch (...) {} }
 #ifndef CALLS_NOOP
     SbxA::thread_data.sandbox = nullptr;
